@@ -71,6 +71,7 @@ def _rule_body(ctx, name):
 
 
 def r1_factor_form(ctx):
+    K.conversion_roles(ctx)          # the converted number and its source units come from the same object (shared)
     from . import C03 as _C03b
     _C03b.r3_exponent_algebra(ctx)   # the unit string is turned into exponents by these operators: `km3/km`, `J/km1:2` (shared with C03.R3)
     _C03b.r6_fraction(ctx)           # ... and the exponents are these fractions (shared with C03.R6)
